@@ -32,6 +32,8 @@ TIMEOUT_MS = 2500
 # finite) plus root calls made by the main thread. Statement forms of a body (acc starts as x):
 #   ["s", j, k]   v := fj(acc + k)             start a task
 #   ["a", i]      acc += await <i-th started>  (may be awaited several times, or never)
+#   ["w", i, k]   v := wt(<i-th started>, acc + k)   start a task that awaits a promise it was handed: several
+#                 tasks then wait on one promise (continuation lists with more than one entry)
 #   ["t"]         await timeout(1.millisecond) external promise settled by a timer goroutine
 #   ["n", k]      acc += k
 # flag throws: the body ends with `if acc % 3 == 0 then throw :boom`; awaits of throwing
@@ -41,9 +43,11 @@ TIMEOUT_MS = 2500
 def gen_program(rng, size):
     nf = rng.choice([1, 2, 2, 3, 3, 4]) if size > 1 else rng.choice([1, 2])
     funcs = []
+    throws = [rng.random() < 0.2 for _ in range(nf)]
     for i in range(nf):
         body = []
         spawned = []
+        kinds = []
         nst = rng.randint(0, 2 + size)
         for _ in range(nst):
             r = rng.random()
@@ -51,9 +55,15 @@ def gen_program(rng, size):
                 j = rng.randint(i + 1, nf - 1)
                 body.append(["s", j, rng.randint(0, 3)])
                 spawned.append(len(spawned))
-            elif r < 0.75 and spawned:
+                kinds.append(j)
+            elif r < 0.58 and any(k == "w" or not throws[k] for k in kinds):
+                cand = [x for x, k in enumerate(kinds) if k == "w" or not throws[k]]
+                body.append(["w", rng.choice(cand), rng.randint(0, 3)])
+                spawned.append(len(spawned))
+                kinds.append("w")
+            elif r < 0.8 and spawned:
                 body.append(["a", rng.choice(spawned)])
-            elif r < 0.82:
+            elif r < 0.87:
                 body.append(["t"])
             else:
                 body.append(["n", rng.randint(1, 5)])
@@ -61,16 +71,30 @@ def gen_program(rng, size):
         for k in spawned:
             if not any(s[0] == "a" and s[1] == k for s in body) and rng.random() < 0.8:
                 body.append(["a", k])
-        funcs.append({"body": body, "throws": rng.random() < 0.2})
+        funcs.append({"body": body, "throws": throws[i]})
     roots = [[rng.randint(0, min(1, nf - 1)), rng.randint(0, 4)] for _ in range(rng.choice([1, 1, 2, 3]))]
     return {"funcs": funcs, "roots": roots}
 
 
 def normalise(prog):
-    """drop awaits whose spawn is gone; renumber spawn references"""
-    for f in prog["funcs"]:
-        nsp = sum(1 for s in f["body"] if s[0] == "s")
-        f["body"] = [s for s in f["body"] if s[0] != "a" or s[1] < nsp]
+    """drop statements that refer to a started task that is gone (after shrinking) or that would hand a
+    possibly rejected promise to a waiter"""
+    funcs = prog["funcs"]
+    for f in funcs:
+        kinds, body = [], []
+        for st in f["body"]:
+            if st[0] == "s":
+                if st[1] >= len(funcs):
+                    continue
+                kinds.append(st[1])
+            elif st[0] == "w":
+                if st[1] >= len(kinds) or (kinds[st[1]] != "w" and funcs[kinds[st[1]]]["throws"]):
+                    continue
+                kinds.append("w")
+            elif st[0] == "a" and st[1] >= len(kinds):
+                continue
+            body.append(st)
+        f["body"] = body
     return prog
 
 
@@ -87,6 +111,9 @@ def evaluate(prog):
         for s in f["body"]:
             if s[0] == "s":
                 started.append(run(s[1], acc + s[2]))
+            elif s[0] == "w":
+                count[0] += 1
+                started.append(acc + s[2] + started[s[1]])
             elif s[0] == "a":
                 r = started[s[1]]
                 acc += r if r is not None else -7
@@ -106,6 +133,8 @@ def evaluate(prog):
 def render(prog, name):
     L = ["module " + name]
     funcs = prog["funcs"]
+    if any(st[0] == "w" for f in funcs for st in f["body"]):
+        L += ["  async def wt(p: Promise[Int], x: Int): Int", "    var acc = x", "    acc += await p", "    acc", "  end"]
     for i, f in enumerate(funcs):
         L.append("  async def f%d(x: Int): Int%s" % (i, " ! :boom" if f["throws"] else ""))
         L.append("    var acc = x")
@@ -114,8 +143,11 @@ def render(prog, name):
             if s[0] == "s":
                 L.append("    v%d := f%d(acc + %d)" % (len(sp), s[1], s[2]))
                 sp.append(s[1])
+            elif s[0] == "w":
+                L.append("    v%d := wt(v%d, acc + %d)" % (len(sp), s[1], s[2]))
+                sp.append("w")
             elif s[0] == "a":
-                if funcs[sp[s[1]]]["throws"]:
+                if sp[s[1]] != "w" and funcs[sp[s[1]]]["throws"]:
                     L += ["    acc += do", "      await v%d" % s[1], "    catch :boom", "      -7", "    end"]
                 else:
                     L.append("    acc += await v%d" % s[1])
@@ -389,6 +421,13 @@ def run(ctx):
         rp = json.load(open(ctx.replay))["input"]
         configs = [(rp["pool"], rp["queue"])]
         progs = [(rp["ir"], [rp["seed"], rp["seed"] + 1, rp["seed"] + 2, 0])]
+        if rp.get("events"):
+            # a rejected log: first re-validate exactly the stored log, then re-run the program
+            m = vlib.run_model(["pr\ttrace\t%d\t%d\t%s" % (rp["pool"], rp["queue"], rp["events"])])[0]
+            ctx.case(("stored-log", rp["events"]), sample={"stored_log": m[:200]})
+            if not m.startswith("ok "):
+                ctx.violation("trace-rejected", rp, "the stored event log is not a behaviour of the model: " + m[:400],
+                              no_input=True)
     else:
         configs = QUICK_CONFIGS if ctx.quick else ALL_CONFIGS
         progs = None
